@@ -24,6 +24,7 @@ EXPLANATION = (
     "loop changed. The number and spacing of transmissions observed on a wire are not decided."
     ' (R5) inventory of the places that schedule _timeout_mechanism with a delay (both _send_request methods, both partial-response handlers): the delay is self.timeout itself.'
     ' (R6, shared with C04.R1) every transmission in _send_request is followed by self._timer = call_later(self.timeout, self._timeout_mechanism).'
+    ' (R7) send_request does not await the response future inside an asyncio.timeout / wait_for scope: only the timer armed with self.timeout bounds the wait.'
 )
 
 ROLES = ("host", "port", "comm_addr", "timeout", "retries")
@@ -53,6 +54,8 @@ def check(ctx: Ctx, rep: Report):
     rep.rule("C05.R5", "every wait is the configured one: wherever self._timeout_mechanism is scheduled with a delay, the delay is self.timeout itself", 1)
     from .proto import timeout_delays
     timeout_delays(ctx, rep, "C05.R5")
+    rep.rule("C05.R7", "nothing but the configured timer bounds the wait for an answer: the response future is not awaited inside an asyncio.timeout / wait_for scope with a constant limit", 2)
+    response_wait_unbounded(ctx, rep)
     rep.rule("C05.R6", "every transmission is followed by arming the timeout (shared with C04.R1): a request sent without a timer is not given its configured timeout and retries at all", 4)
     from .c04 import r1 as _c04_r1
     from ..core import Report as _R6
@@ -62,6 +65,40 @@ def check(ctx: Ctx, rep: Report):
     for o in _s6.obligations:
         if o.rule == "C04.R1":
             rep.obligations.append(type(o)("C05.R6", o.key, o.where, o.what, o.status, o.detail))
+
+
+def response_wait_unbounded(ctx: Ctx, rep: Report):
+    """send_request waits for the answer with `await <response future>`; how long is decided by the timer armed with
+    self.timeout alone.  A constant deadline around that await (async with asyncio.timeout(5): ..., wait_for(future, 5))
+    caps every configured timeout above it."""
+    from .proto import is_future_expr
+    for ci in proto_classes(ctx):
+        sr = method(ctx, ci, "send_request")
+        bad = None
+
+        def awaits_future(node):
+            for x in ast.walk(node):
+                if isinstance(x, ast.Await) and (is_future_expr(sr, x.value) or (isinstance(x.value, ast.Name) and "future" in x.value.id)):
+                    return x
+            return None
+        for n in ast.walk(sr.node):
+            if isinstance(n, ast.AsyncWith):
+                for it in n.items:
+                    c = call_chain(it.context_expr) if isinstance(it.context_expr, ast.Call) else None
+                    if c and c[-1] in ("timeout", "timeout_at") and bad is None:
+                        for st in n.body:
+                            w = awaits_future(st)
+                            if w is not None:
+                                bad = (w, norm(it.context_expr))
+                                break
+            if isinstance(n, ast.Call) and (call_chain(n) or ("",))[-1] == "wait_for" and n.args and bad is None:
+                a0 = n.args[0]
+                if is_future_expr(sr, a0) or (isinstance(a0, ast.Name) and "future" in a0.id):
+                    bad = (n, norm(n)[:60])
+        rep.check(bad is None, "C05.R7", "response-wait:%s" % sr.short, sr.loc(bad[0]) if bad else sr.loc(),
+                  "%s: the wait for the answer is bounded by the configured timer only" % sr.short,
+                  bad="%s awaits the response inside %s: the wait for an answer ends at that constant deadline whatever timeout was configured (a longer configured timeout is cut short and the retry schedule with it)" % (
+                      sr.short, bad[1] if bad else ""))
 
 
 def close_transport_cancels_timer(ctx: Ctx, ci) -> bool:
